@@ -1,6 +1,7 @@
 package props
 
 import (
+	"sync"
 	"context"
 	"errors"
 	"fmt"
@@ -57,9 +58,37 @@ type c14Case struct {
 	Ideal bool `json:"ideal,omitempty"`
 	// Chunk: the transport takes the request body in pieces of this many bytes
 	// (0 = 32 KiB), so a close can land in the middle of a Send.
-	Chunk  int   `json:"chunk,omitempty"`
+	Chunk int `json:"chunk,omitempty"`
+	// Expire: the program's X is the expiry of the call's context, not a
+	// cancellation (ctx.Err() = context.DeadlineExceeded), at the same program
+	// point; the server is not told any timeout, so nothing but the client's
+	// own context ends the call.
+	Expire bool  `json:"expire,omitempty"`
 	Prefix []int `json:"prefix,omitempty"` // schedule (replay)
 }
+
+// expiringCtx is a context that ends, when expire is called, the way a
+// deadline does (Err() = context.DeadlineExceeded) without announcing a
+// deadline beforehand.
+type expiringCtx struct {
+	context.Context
+	done chan struct{}
+	once sync.Once
+}
+
+func newExpiringCtx() *expiringCtx {
+	return &expiringCtx{Context: context.Background(), done: make(chan struct{})}
+}
+func (e *expiringCtx) Done() <-chan struct{} { return e.done }
+func (e *expiringCtx) Err() error {
+	select {
+	case <-e.done:
+		return context.DeadlineExceeded
+	default:
+		return nil
+	}
+}
+func (e *expiringCtx) expire() { e.once.Do(func() { close(e.done) }) }
 
 func (k c14Case) key() string {
 	sp := ""
@@ -80,6 +109,9 @@ func (k c14Case) key() string {
 	}
 	if k.Chunk > 0 {
 		sp += fmt.Sprintf("/chunk%d", k.Chunk)
+	}
+	if k.Expire {
+		sp += "/expire"
 	}
 	return fmt.Sprintf("%s/%s/%s%s/%s", k.Proto, k.ReqMode, k.Client, sp, k.Handler)
 }
@@ -387,6 +419,10 @@ func c14Body(k c14Case, s *bsched.Sched) any {
 	}
 	cl := NewClient(tr, Cfg{Proto: k.Proto, Comp: CompNone}, copts...)
 	ctx, cancel := context.WithCancel(context.Background())
+	if k.Expire {
+		ec := newExpiringCtx()
+		ctx, cancel = ec, ec.expire
+	}
 	stream := cl.CallBidiStream(ctx)
 	sendIdx := 0
 	doOp := func(op byte) {
@@ -701,6 +737,13 @@ func c14Cases(thorough bool) []c14Case {
 				}
 				out = append(out, c14Case{Proto: p, ReqMode: memhttp.ReqEager, Client: w, Handler: h, Bound: 1, Chunk: 3})
 			}
+		}
+	}
+	// the short cancelling programs once more with X = expiry of the context instead of a cancellation
+	for _, k := range append([]c14Case(nil), out...) {
+		if k.ReqMode == memhttp.ReqEager && strings.Contains(k.Client, "X") && len(k.Client) <= 3 && !k.RR && !k.Limit && !k.Split && k.Chunk == 0 && k.Bound == 1 {
+			k.Expire = true
+			out = append(out, k)
 		}
 	}
 	// cancelling programs additionally against the idealised transport
